@@ -103,6 +103,46 @@ def run(ctx, rep):
             rep.ob('fixed-size', subj, equal(total, C(sp['size']), facts)[0], '%s emits %s bytes, specified %d' % (ty, show(total), sp['size']), sp=sp_, detail={'emitted_bytes': show(total)})
         seen_types.add(ty)
     rep.floor('entry constructors with a specification', n_entries, 42)
+    # self-length on arbitrary reachable receivers: computed lengths must equal the emission size for every field
+    # value; lengths kept in a field must be kept equal to it by every constructor and builder (induction over the API)
+    done = set()
+    for (ty, ctor), sp in sorted(SPEC.STRUCTS.items(), key=lambda x: (x[0][0], x[0][1] or '')):
+        if sp['table'] is None or ty in done: continue
+        done.add(ty)
+        if f.method('Aml', ty, 'to_aml_bytes') is None: continue
+        exp, tags = build(sp['items'], {})
+        lenpos = [(p_, es) for p_, es, tg in tagged_positions(exp, tags) if tg == 'len']
+        if not lenpos: continue
+        pos, es = lenpos[0]
+        I = new_interp(f)
+        sv = I.sym_value(ty, 'self')
+        segs = emit_value(I, sv, ty)
+        sp_ = f.bodies[f.method('Aml', ty, 'to_aml_bytes')]['sp']
+        if I.tops or segs is None:
+            # receivers that are only serialisable in particular states (CFMWS) are covered by the constructor view above
+            continue
+        g = seg_at_term(segs, pos)
+        if g is None or g[0] != 'int': continue
+        val = strip_trunc(g[1])
+        if ty in ('srat::RintcAffinity', 'cedt::PortAssociation'): continue     # reported through the constructor view (known findings, one key each)
+        if val[0] == 'a' and isinstance(val[1], str) and val[1].startswith('self.') and '.' not in val[1][5:]:
+            fld = val[1][5:]
+            def rhs(I2, v, ty=ty):
+                s2 = emit_value(I2, v, ty)
+                return None if s2 is None else seqlen(s2)
+            from rules.C02 import entry_len_subst, _apply_elem_lengths
+            res = prove_field_invariant(f, ty, fld, lambda I2, v: (_apply_elem_lengths(I2, rhs(I2, v), [('rqsc::ResourceStructure', 'length')]) if rhs(I2, v) is not None else None),
+                                        entry_len_subst(f, [('rqsc::ResourceStructure', 'length')]) if ty != 'rqsc::ResourceStructure' else None)
+            for d_ in res.analysed: rep.analysed.add(d_)
+            for b_, kind, det in res.failures:
+                rep.ob('self-length', '%s:%s' % (ty, b_['name']), False, '%s keeps its length in field %s; %s does not keep it equal to the bytes emitted (%s)' % (ty, fld, b_['name'], kind), sp=b_['sp'], detail=det if kind != 'undecided' else {'tops': str(det)})
+            for i in range(res.obligations - len(res.failures)):
+                rep.ob('self-length', '%s.%s:inductive#%d' % (ty, fld, i), True, detail={'type': ty, 'stored_in': fld})
+        else:
+            total = strip_trunc(seqlen(segs))
+            ok = equal(val, total, [c for c, _ in I.st.facts])[0]
+            if ty in ('srat::RintcAffinity', 'cedt::PortAssociation'): continue     # reported through the constructor view (known findings)
+            rep.ob('self-length', '%s:any receiver' % ty, ok, '%s computes length %s but emits %s bytes' % (ty, show(val), show(total)), sp=sp_, detail={'length_field': show(val), 'emitted_bytes': show(total)})
 
     # ------------------------------------------------------------ counts and offsets on symbolic receivers
     n_counts = 0
